@@ -11,3 +11,6 @@ Check (C02_dependency_complete_ir : forall E c c' ds, analyze_code_property_depe
   Forall (block_covered E c' (c_nobs c) (length (c_locals c))) (c_blocks c')).
 Check (C02_stale_without_coverage_refuted : exists (eval : (nat -> nat) -> nat) (connected : (nat -> nat) -> list nat) (w : nat -> nat) (h : list (nat * nat)),
     target _ _ (run nat nat Nat.eqb eval connected w h) <> eval (now _ _ (run nat nat Nat.eqb eval connected w h))).
+Check (C02_ir_checker_sound : forall E c, code_covered_b E c = true <->
+  Forall (fun b => covered_sig E (c_sdeps c) 0 (c_nobs c) (repeat None (length (c_locals c))) None (b_stmts b)) (c_blocks c)).
+Check (C02_coverage_implies_checker : forall E deps lo hi l known prev, covered E deps lo hi known prev l -> covered_b E deps lo hi known prev l = true).
